@@ -224,6 +224,41 @@ def concretise(c, rng_vals):
     return b + (sgn * 10.0 ** (-dec) if dec > 0 else 0.0)
 
 
+def halfturn_worker(a):
+    """rotations 4e-3 .. 2e-6 degrees short of a half turn: Cayley matrices of integer Rodrigues vectors with |r| = 3e4 .. 6e7,
+    formed with unbounded Python integers (the Cayley identities are proved for all integers by Apalache, spec/apalache/Identities.tla)
+    and divided exactly.  The property's clause: u_to_rod returns a finite vector that rebuilds the matrix to 1e-6."""
+    p = a
+    from fractions import Fraction
+    import importlib
+    import numpy as np
+    pp = sum(x * x for x in p)
+    D = 1 + pp
+    K = [[0, -p[2], p[1]], [p[2], 0, -p[0]], [-p[1], p[0], 0]]
+    N = [[(1 - pp) * (1 if i == j else 0) + 2 * p[i] * p[j] + 2 * K[i][j] for j in range(3)] for i in range(3)]
+    U = np.array([[float(Fraction(N[i][j], D)) for j in range(3)] for i in range(3)]).T      # the library's passive sense
+    out = []
+    ang = 180.0 - math.degrees(2 * math.atan(1.0 / math.sqrt(pp)))
+    for modname in ("tools", "laue"):
+        mod = importlib.import_module("xfab." + modname)
+        tag = "xfab.%s rotation by 180 - %.3g degrees, Rodrigues vector %s" % (modname, 180.0 - ang, list(p))
+        try:
+            r, m_ = L.twice(mod.u_to_rod, U)
+            if m_:
+                out.append(m_ + " (%s)" % tag)
+            r = np.asarray(r, dtype=float)
+            if r.shape != (3,) or not np.all(np.isfinite(r)):
+                out.append("u_to_rod returned %s for a rotation outside the excluded 1e-6 degree window (%s)" % (r.tolist(), tag))
+                continue
+            Rb = np.asarray(mod.rod_to_u(r), dtype=float)
+            if np.abs(Rb - U).max() > 1e-6:
+                out.append("rod_to_u(u_to_rod(U)) differs from U by %.3g > 1e-6; u_to_rod gave |r| = %.6g, the rotation has |r| = %.6g (%s)" %
+                           (float(np.abs(Rb - U).max()), float(np.sqrt(r.dot(r))), math.sqrt(pp), tag))
+        except Exception as e_:
+            out.append("exception %r (%s)" % (e_, tag))
+    return 2, out
+
+
 def gimbal_worker(a):
     x, gv = a
     import importlib
@@ -272,6 +307,19 @@ def run(tier, seed):
         v.case(repr(x["cs"]), sample={"case": x["cs"], "den": x["den"]} if kinds[k] == 3 else None)
         for o in out[:2]:
             v.violation(o, {"case": x["cs"], "N": x["N"], "den": x["den"]})
+    hts = []
+    for size in (3e4, 1e5, 1e6, 1e7, 6e7):
+        for _ in range(6 if tier == "quick" else 80):
+            d_ = [rng.uniform(-1, 1) for _ in range(3)]
+            nrm = math.sqrt(sum(x * x for x in d_)) or 1.0
+            hts.append(tuple(int(round(size * x / nrm)) for x in d_))
+        hts.append((int(size), 0, 0))
+        hts.append((0, -int(size), 1))
+    for p_, (n, out) in zip(hts, [halfturn_worker(p_) for p_ in hts]):
+        ncalls += n
+        v.case(("halfturn", p_), sample={"rodrigues_vector": list(p_)} if p_[1] == 0 and p_[2] == 0 and len(v.samples) < 9 else None)
+        for o in out[:2]:
+            v.violation(o, {"rodrigues_vector": list(p_)})
     rg = common.run_tlc("Gimbal", "MC_Gimbal.cfg" if tier == "quick" else "MC_Gimbal_thorough.cfg", wd, timeout=3000)
     gv = (rng.uniform(0.3, 1.2), rng.uniform(3.5, 6.0))
     res = common.pmap(gimbal_worker, [(x, gv) for x in rg.records])
